@@ -1,6 +1,7 @@
 import ASV.Drv.J
 import ASV.Model.ProtDna
 import ASV.Spec.ProtDna
+import ASV.Spec.ProtDnaRebuild
 namespace ASV.Drv.C09
 open Lean ASV ASV.Drv ASV.ProtDna
 
@@ -37,14 +38,23 @@ def handle (j : Json) : R Json := do
   | "sub" =>
     let s ← intF j "s"; let e ← intF j "e"
     let impl ← optLoc j "impl"
-    let guard := decide (0 ≤ s) && decide (s < e) && decide (e ≤ l.len / 3)
+    -- partial genes: per part [start is `<`, end is `>`]; absent = all positions exact
+    let fz : Fuzz ← match j.getObjVal? "fz" with
+      | .ok (.arr a) => a.toList.mapM fun x => do return ((← asBool (← idx x 0)), (← asBool (← idx x 1)))
+      | _ => pure []
+    let amb := ambiguousEnd l fz
+    let total := l.len / 3
+    let truncated := amb && decide (e > total) && decide (0 ≤ s) && decide (s < total)
+    let e' := if truncated then total else e
+    let guard := decide (0 ≤ s) && decide (s < e') && decide (e' ≤ total)
     let feature := boolFD j "feature" false     -- a motif/domain feature is constructed from the location
-    let m := if feature then featureAt (subLocation l s e) else subLocation l s e
-    let refused := match subLocation l s e with | .ok r => containsOverlappingExons r | _ => false
+    let m := if feature then featureAt (subLocationFuzzy amb l s e) else subLocationFuzzy amb l s e
+    let refused := match subLocationFuzzy amb l s e with | .ok r => containsOverlappingExons r | _ => false
     return jObj (common ++ [
       ("model", resJson locToJson m), ("unrepresentable", toJson refused),
-      ("spec", jObj [("guard", toJson guard), ("slice", sliceJ l (3 * s) (3 * e)),
-                     ("covers", coversJ l impl (3 * s) (3 * e))])])
+      ("amb", toJson amb), ("truncated", toJson truncated), ("eff_e", toJson e'),
+      ("spec", jObj [("guard", toJson guard), ("slice", sliceJ l (3 * s) (3 * e')),
+                     ("covers", coversJ l impl (3 * s) (3 * e'))])])
   | "offsets" =>
     let s ← intF j "s"; let e ← intF j "e"
     let impl ← optLoc j "impl"
@@ -65,9 +75,15 @@ def handle (j : Json) : R Json := do
     let s ← intF j "s"; let e ← intF j "e"
     let guard := decide (0 ≤ s) && decide (s < e) && decide (e ≤ l.len / 3)
     let sl := sliceL (bases l) (3 * s).toNat (3 * e).toNat
+    -- scope of the convert_* theorems: simple, or compound in the standard exon order of its strand
+    let standard := !l.isCompound || (if isRev l then descDisjointB l.parts else ascDisjointB l.parts)
+    let first := sl.head?.getD 0
+    let last := sl.getLast?.getD 0
+    let expected : List Int := if isRev l then [last, first + 1] else [first, last + 1]
     return jObj (common ++ [
       ("model", resJson (fun (p : Int × Int) => jInts [p.1, p.2]) (convertProteinToDna s e l)),
-      ("spec", jObj [("guard", toJson guard), ("simple", toJson (!l.isCompound)),
+      ("spec", jObj [("guard", toJson guard), ("simple", toJson (!l.isCompound)), ("standard", toJson standard),
+                     ("expected", jInts expected),
                      ("minmax", jInts [minList sl, maxList sl + 1])])])
   | "frameshift" =>
     let cs ← intF j "cs"; let undo ← boolF j "undo"
@@ -81,8 +97,11 @@ def handle (j : Json) : R Json := do
       | none => Json.null
       | some r => toJson (if undo then bases l == (bases r).drop k else bases r == (bases l).drop k)
     let guard := frameGuard l cs undo
+    let textModel : Json := match j.getObjVal? "text" with
+      | .ok (.str t) => resJson locToJson (frameshiftText l t undo)
+      | _ => Json.null
     return jObj (common ++ [
-      ("model", resJson locToJson m), ("back", back),
+      ("model", resJson locToJson m), ("back", back), ("model_text", textModel),
       ("spec", jObj [("guard", toJson guard), ("shifted", specOk)])])
   | "prepeptide" =>
     let ld ← intF j "leader"; let tl ← intF j "tail"
@@ -97,6 +116,40 @@ def handle (j : Json) : R Json := do
                      ("leader", coversJ l il 0 (3 * ld)),
                      ("core", coversJ l ic (3 * ld) (3 * (total - tl))),
                      ("tail", coversJ l it (3 * (total - tl)) (3 * total)),
+                     ("slices", jArr [sliceJ l 0 (3 * ld), sliceJ l (3 * ld) (3 * (total - tl)),
+                                      sliceJ l (3 * (total - tl)) (3 * total)])])])
+  | "prepeptide_rt" =>
+    -- to_biopython → Prepeptide.from_biopython(core) → to_biopython again
+    let ld ← intF j "leader"; let tl ← intF j "tail"
+    let repaired ← boolF j "repaired"
+    let implR ← optLoc j "impl_rebuilt"
+    let il ← optLoc j "impl_leader"; let ic ← optLoc j "impl_core"; let it ← optLoc j "impl_tail"
+    let total := l.len / 3
+    let guard := decide (0 ≤ ld) && decide (0 ≤ tl) && decide (ld + tl < total)
+    let expected := sliceL (bases l) 0 (3 * total).toNat
+    let sound : Bool := rebuildSound l ld tl
+    let oneStrand (r : Loc) : Bool := r.parts.all fun q => q.strand == l.strand
+    let basesOk (r : Option Loc) (a b : Int) : Json := match r with
+      | none => Json.null
+      | some r => toJson (bases r == sliceL (bases l) a.toNat b.toNat && oneStrand r)
+    let m := prepeptideRebuild repaired l ld tl
+    let m2 := prepeptideSecondPass repaired l ld tl
+    return jObj (common ++ [
+      ("model", resJson locToJson m),
+      ("model_bases", match m with | .ok r => jInts (bases r) | _ => Json.null),
+      ("model2", resJson (fun (x : Option Loc × Loc × Option Loc) =>
+          jObj [("leader", optLocJson x.1), ("core", locToJson x.2.1), ("tail", optLocJson x.2.2)]) m2),
+      ("sound", toJson sound),
+      ("unrepresentable", toJson (match prepeptideSections l ld tl with
+        | .ok x => (match rebuildLocation repaired (sectionList x) with
+                    | .ok r => containsOverlappingExons r | _ => false)
+        | _ => false)),
+      ("spec", jObj [("guard", toJson guard),
+                     ("rebuilt", basesOk implR 0 (3 * total)),
+                     ("expected", jInts expected),
+                     ("leader", basesOk il 0 (3 * ld)),
+                     ("core", basesOk ic (3 * ld) (3 * (total - tl))),
+                     ("tail", basesOk it (3 * (total - tl)) (3 * total)),
                      ("slices", jArr [sliceJ l 0 (3 * ld), sliceJ l (3 * ld) (3 * (total - tl)),
                                       sliceJ l (3 * (total - tl)) (3 * total)])])])
   | k => throw s!"C09: unknown kind {k}"
